@@ -1,6 +1,9 @@
 package mon
 
 import (
+	"io"
+	"log"
+
 	stackage "github.com/JesseCoretta/go-stackage"
 	"verifharness/core"
 )
@@ -10,6 +13,14 @@ import (
 // entry points that classify element values. Correct code classifies a value by looking at the value; code that remembers
 // a verdict per type is met in both orders in every run.
 func procWarm(mode int) {
+	if mode >= 3 {
+		w := log.New(io.Discard, "", 0)
+		stackage.SetDefaultStackLogger(w)
+		stackage.SetDefaultConditionLogger(w)
+		stackage.SetDefaultStackLogLevel(stackage.AllLogLevels)
+		stackage.SetDefaultConditionLogLevel(stackage.AllLogLevels)
+		mode -= 3
+	}
 	if mode == 0 {
 		return
 	}
